@@ -12,7 +12,10 @@ use ant_protocol::storage::{
     try_deserialize_record, try_serialize_record, Chunk, ChunkAddress, RecordHeader, RecordKind, RecordType, Scratchpad,
     ScratchpadAddress, Transaction, TransactionAddress,
 };
-use ant_protocol::NetworkAddress;
+use ant_protocol::{NetworkAddress, PrettyPrintRecordKey};
+use futures::io::Cursor;
+use libp2p::request_response::{self, Codec};
+use libp2p::StreamProtocol;
 use ant_registers::RegisterAddress;
 use libp2p::identity::Keypair;
 use libp2p::Multiaddr;
@@ -372,17 +375,24 @@ fn record_type_of(v: &Value) -> RecordType {
 
 fn error_of(v: &Value) -> ProtocolError {
     match v["e"].as_str().unwrap() {
+        "UserDataDirectoryNotObtainable" => ProtocolError::UserDataDirectoryNotObtainable,
+        "CouldNotObtainPortFromMultiAddr" => ProtocolError::CouldNotObtainPortFromMultiAddr,
+        "ParseRetryStrategyError" => ProtocolError::ParseRetryStrategyError,
+        "CouldNotObtainDataDir" => ProtocolError::CouldNotObtainDataDir,
         "ChunkDoesNotExist" => ProtocolError::ChunkDoesNotExist(addr_of(&v["a"])),
-        "RegisterNotFound" => ProtocolError::RegisterNotFound(Box::new(RegisterAddress::new(XorName(arr32(&v["x"])), sk(1).public_key()))),
+        "RegisterNotFound" => ProtocolError::RegisterNotFound(Box::new(RegisterAddress::new(XorName(arr32(&v["x"])), sk(v["i"].as_u64().unwrap()).public_key()))),
         "RegisterAlreadyClaimed" => ProtocolError::RegisterAlreadyClaimed(sk(v["i"].as_u64().unwrap()).public_key()),
         "RegisterRecordNotFound" => ProtocolError::RegisterRecordNotFound { holder: Box::new(addr_of(&v["a"])), key: Box::new(addr_of(&v["b"])) },
-        "ReplicatedRecordNotFound" => ProtocolError::ReplicatedRecordNotFound { holder: Box::new(addr_of(&v["a"])), key: Box::new(addr_of(&v["b"])) },
+        "ScratchpadHexDeserializeFailed" => ProtocolError::ScratchpadHexDeserializeFailed,
+        "ScratchpadCipherTextFailed" => ProtocolError::ScratchpadCipherTextFailed,
+        "ScratchpadCipherTextInvalid" => ProtocolError::ScratchpadCipherTextInvalid,
         "GetStoreQuoteFailed" => ProtocolError::GetStoreQuoteFailed,
         "QuoteGenerationFailed" => ProtocolError::QuoteGenerationFailed,
+        "ReplicatedRecordNotFound" => ProtocolError::ReplicatedRecordNotFound { holder: Box::new(addr_of(&v["a"])), key: Box::new(addr_of(&v["b"])) },
         "RecordHeaderParsingFailed" => ProtocolError::RecordHeaderParsingFailed,
         "RecordParsingFailed" => ProtocolError::RecordParsingFailed,
-        "ScratchpadCipherTextInvalid" => ProtocolError::ScratchpadCipherTextInvalid,
-        _ => ProtocolError::UserDataDirectoryNotObtainable,
+        "RecordExists" => ProtocolError::RecordExists(PrettyPrintRecordKey::from(&RecordKey::new(&hexv(&v["k"]))).into_owned()),
+        other => panic!("error variant {other}"),
     }
 }
 
@@ -443,15 +453,76 @@ fn response_of(v: &Value) -> Response {
     }
 }
 
-/// the two functions libp2p's request_response::cbor codec is made of (its Codec type is private)
-fn cbor_roundtrip<T: Serialize + DeserializeOwned + PartialEq>(x: &T, cap: usize) -> Value {
-    let data = cbor4ii::serde::to_vec(Vec::new(), x).expect("cbor encode");
-    let back: Result<T, _> = cbor4ii::serde::from_slice(&data);
+// `request_response::cbor::codec::Codec` lives in a private module: the type is recovered through the
+// public `cbor::Behaviour` alias, so the harness drives the very codec the network driver installs
+// (ant-networking/src/driver.rs: request_response::cbor::Behaviour<Request, Response>)
+trait CodecOf {
+    type C;
+}
+impl<C: Codec + Clone + Send + 'static> CodecOf for request_response::Behaviour<C> {
+    type C = C;
+}
+type WireCodec = <request_response::cbor::Behaviour<Request, Response> as CodecOf>::C;
+
+enum Msg {
+    Req(Request),
+    Resp(Response),
+}
+
+/// (bytes the codec wrote, what the codec read back from them)
+fn over_the_wire(m: &Msg) -> (std::io::Result<Vec<u8>>, Option<std::io::Result<Msg>>) {
+    futures::executor::block_on(async {
+        let protocol = StreamProtocol::new("/verif/c12");
+        let mut codec = WireCodec::default();
+        let mut out = Cursor::new(Vec::new());
+        let w = match m {
+            Msg::Req(x) => codec.write_request(&protocol, &mut out, x.clone()).await,
+            Msg::Resp(x) => codec.write_response(&protocol, &mut out, x.clone()).await,
+        };
+        if let Err(e) = w {
+            return (Err(e), None);
+        }
+        let bytes = out.into_inner();
+        let mut input = Cursor::new(bytes.clone());
+        let back = match m {
+            Msg::Req(_) => codec.read_request(&protocol, &mut input).await.map(Msg::Req),
+            Msg::Resp(_) => codec.read_response(&protocol, &mut input).await.map(Msg::Resp),
+        };
+        (Ok(bytes), Some(back))
+    })
+}
+
+/// arbitrary bytes through the real codec's readers
+fn wire_read(bytes: &[u8]) -> (std::io::Result<Request>, std::io::Result<Response>) {
+    futures::executor::block_on(async {
+        let protocol = StreamProtocol::new("/verif/c12");
+        let mut codec = WireCodec::default();
+        let a = codec.read_request(&protocol, &mut Cursor::new(bytes.to_vec())).await;
+        let b = codec.read_response(&protocol, &mut Cursor::new(bytes.to_vec())).await;
+        (a, b)
+    })
+}
+
+fn cbor_roundtrip<T: Serialize + DeserializeOwned + PartialEq>(x: &T, m: Msg) -> Value {
+    // the real libp2p codec
+    let (written, back) = over_the_wire(&m);
+    let (wire_ok, wire_rt, wire_err) = match &back {
+        Some(Ok(Msg::Req(y))) => (true, matches!(&m, Msg::Req(z) if z == y), None),
+        Some(Ok(Msg::Resp(y))) => (true, matches!(&m, Msg::Resp(z) if z == y), None),
+        Some(Err(e)) => (false, false, Some(format!("{e:?}"))),
+        None => (false, false, written.as_ref().err().map(|e| format!("write: {e:?}"))),
+    };
+    let data = written.unwrap_or_default();
+    // the two cbor4ii functions the codec is made of must agree with it
+    let direct = cbor4ii::serde::to_vec(Vec::new(), x).ok();
+    let direct_back: Option<T> = direct.as_ref().and_then(|d| cbor4ii::serde::from_slice(d).ok());
     let rmp = rmp_serde::to_vec(x).expect("rmp encode");
     let rmp_back: Result<T, _> = rmp_serde::from_slice(&rmp);
     let mut out = json!({
-        "cbor_len": data.len(), "cbor_within_cap": data.len() <= cap,
-        "cbor_rt": matches!(&back, Ok(y) if y == x), "cbor_ok": back.is_ok(),
+        "cbor_len": data.len(),
+        "cbor_ok": wire_ok, "cbor_rt": wire_rt, "wire_err": wire_err,
+        "direct_same": direct.as_deref() == Some(data.as_slice()),
+        "direct_rt": matches!(&direct_back, Some(y) if y == x),
         "rmp": hex::encode(&rmp), "rmp_rt": matches!(&rmp_back, Ok(y) if y == x),
         "cbor": if data.len() <= 200_000 { json!(hex::encode(&data)) } else { Value::Null },
     });
@@ -468,17 +539,18 @@ fn cbor_roundtrip<T: Serialize + DeserializeOwned + PartialEq>(x: &T, cap: usize
 
 fn op_msg(case: &Value) -> Value {
     if case["ty"].as_str().unwrap() == "request" {
-        cbor_roundtrip(&request_of(&case["v"]), 1024 * 1024)
+        let x = request_of(&case["v"]);
+        cbor_roundtrip(&x, Msg::Req(x.clone()))
     } else {
-        cbor_roundtrip(&response_of(&case["v"]), 10 * 1024 * 1024)
+        let x = response_of(&case["v"]);
+        cbor_roundtrip(&x, Msg::Resp(x.clone()))
     }
 }
 
 /// arbitrary bytes through the CBOR decoders of both message types
 fn op_msg_decode(case: &Value) -> Value {
     let b = hexv(&case["bytes"]);
-    let rq: Result<Request, _> = cbor4ii::serde::from_slice(&b);
-    let rs: Result<Response, _> = cbor4ii::serde::from_slice(&b);
+    let (rq, rs) = wire_read(&b);
     // what decodes must encode back to something that decodes to the same value
     let rq_stable = rq.as_ref().ok().map(|x| {
         let again = cbor4ii::serde::to_vec(Vec::new(), x).expect("encode");
